@@ -34,6 +34,10 @@ LEVEL_NOTE = ("Only completion orders through the executor interface are control
 ASSUMPTIONS = ["gates of one layer act on disjoint sites; map() must return results in input order"]
 
 
+# separate PT-TEBD runs truncate singular values (epsrel 1e-10) and are reproducible to that level only, not bit-wise
+RUN_TOL = 1e-8
+
+
 def _ptrace(rho, dims, keep):
     n = len(dims)
     t = rho.reshape(dims + dims)
@@ -216,8 +220,8 @@ def run_modes(case):
             if mode in res:
                 a = np.array(res[mode]["states"])
                 b = np.array(base["states"])
-                out.check_close("mode-differs:" + mode, a, b, 1e-12, f"{mode} vs sequential")
-                out.check_close("mode-norm:" + mode, np.array(res[mode]["norm"]), np.array(base["norm"]), 1e-12)
+                out.check_close("mode-differs:" + mode, a, b, RUN_TOL, f"{mode} vs sequential")
+                out.check_close("mode-norm:" + mode, np.array(res[mode]["norm"]), np.array(base["norm"]), RUN_TOL)
         return out
     finally:
         import shutil
@@ -281,9 +285,9 @@ def run_sched(case):
     if len(pe.log) == 0:
         out.fail("executor-not-used", "the parallel back-end never used the executor")
     for i in rec:
-        out.check_close("completion-order", np.array(r["dynamics"][i].states), np.array(base["dynamics"][i].states), 1e-12,
+        out.check_close("completion-order", np.array(r["dynamics"][i].states), np.array(base["dynamics"][i].states), RUN_TOL,
                         f"site {i}")
-    out.check_close("completion-order/norm", np.array(r["norm"]), np.array(base["norm"]), 1e-12)
+    out.check_close("completion-order/norm", np.array(r["norm"]), np.array(base["norm"]), RUN_TOL)
     return out
 
 
